@@ -10,4 +10,9 @@ CONSTANTS
   Video = {"V1", "V2"}
   NoBtrt = {"V1", "V2", "A1"}
   RecordHist = FALSE
+  FixBufResize = TRUE
+  FixCtrResize = TRUE
+  FixDropBound = TRUE
+  FixDeriveGuards = TRUE
+  FixLateTrack = TRUE
 INVARIANTS Pred TypeOK
